@@ -620,3 +620,16 @@ Proof.
   - eapply read_struct_same; [exact N1 | exact N2 | exact Kd1 | exact Kd2 | exact Vd1 | exact Vd2].
   - eapply read_struct_same; [exact N1 | exact N2 | exact Km1 | exact Km2 | exact Vm1 | exact Vm2].
 Qed.
+
+(* the relation discriminates: documents that differ in one string member are not related *)
+Lemma jsame_discriminates : forall k a b,
+  a <> b -> num_of (JStr a) = None -> enc_address (JStr a) = None -> ~ jsame (JObj [(k, JStr a)]) (JObj [(k, JStr b)]).
+Proof.
+  intros k a b NE Nn Na J. inversion J as [? ? At | | ? ? Hs _]; subst.
+  - destruct At as [E|[(z1 & z2 & N1 & _)|(w & A1 & _)]]; [inversion E; contradiction | discriminate | ].
+    cbn [enc_address] in A1. discriminate.
+  - destruct (Hs k (JStr a)) as (b' & Eb & Jb); [cbn [assoc]; rewrite beqb_refl; reflexivity|].
+    cbn [assoc] in Eb. rewrite beqb_refl in Eb. inversion Eb; subst b'.
+    inversion Jb as [? ? At | |]; subst.
+    destruct At as [E|[(z1 & z2 & N1 & _)|(w & A1 & _)]]; [inversion E; contradiction | congruence | congruence].
+Qed.
